@@ -24,6 +24,7 @@ import common
 from common import hexb
 
 RULE = ("cases = (a) pipelines: scanner inputs (direct found_host calls, cache-file text, remote hosts-file bytes) "
+        "and whole hw_main sessions with a fake resolver that fails like the real one; record histories per name; "
         "with names containing separators, newlines, '#', spaces, commas, NUL, non-ASCII letters and digits, "
         "dots in every position, lengths {1,63,106,107,253,254,5000,70000}, addresses likewise; the emitted "
         "stream cut into reads of {1, 2, 1..5 (a record spans three and more reads), line length +-1, 4096, random}; "
@@ -61,6 +62,17 @@ QUAD_RE = re.compile(r'[0-9]{1,3}\.[0-9]{1,3}\.[0-9]{1,3}\.[0-9]{1,3}\Z', re.ASC
 
 class _Stop(Exception):
     pass
+
+
+class _Proxy:
+    """A module with a few names replaced."""
+
+    def __init__(self, real, **over):
+        self.__dict__['_real'] = real
+        self.__dict__.update(over)
+
+    def __getattr__(self, n):
+        return getattr(self._real, n)
 
 
 def cps(s):
@@ -140,9 +152,68 @@ class Scanner:
                 elif op[0] == 'etc':
                     self.files['/etc/hosts'] = op[1]
                     hw._check_etc_hosts()
+                elif op[0] == 'hwmain':
+                    self.run_hw_main(op[1])
         except Exception as e:  # noqa
             self.error = type(e).__name__
+            if isinstance(e, TypeError) and 'without null' in str(e):
+                self.error = 'TypeError:embedded-null'
         return self.raw.getvalue()
+
+    def run_hw_main(self, spec):
+        """The real hw_main loop (seed hosts, cache, /etc/hosts, netstat, DNS and reverse DNS jobs, several
+        passes over the queue) with the resolver, netstat and the stdin test replaced at the OS boundary.
+        The fake resolver fails like the real one: names are IDNA-encoded first (UnicodeError for an empty
+        or over-long label), a NUL is a TypeError, unknown names are gaierror/herror."""
+        import socket as real_socket
+        hw = self.hw
+        fwd, rev = spec['fwd'], spec['rev']
+
+        def check_arg(fn, x):
+            if '\0' in x:
+                raise TypeError('%s() argument 1 must be encoded string without null bytes, not str' % fn)
+            x.encode('idna')
+
+        def gethostbyname(name):
+            check_arg('gethostbyname', name)
+            if name in fwd:
+                return fwd[name]
+            if re.match(r'[0-9]{1,3}(\.[0-9]{1,3}){3}\Z', name, re.ASCII):
+                return name
+            raise real_socket.gaierror(-2, 'Name or service not known')
+
+        def gethostbyaddr(ip):
+            check_arg('gethostbyaddr', ip)
+            if ip in rev:
+                return (rev[ip], [], [ip])
+            raise real_socket.herror(1, 'Unknown host')
+
+        class P:
+            def __init__(self, *a, **k):
+                self.stdout = io.BytesIO(spec['netstat'].encode('ascii'))
+
+            def wait(self):
+                return 0
+
+        passes = [0]
+
+        def still_ok(timeout):
+            if timeout == 1:
+                passes[0] += 1
+                return passes[0] < spec.get('passes', 4)
+            return True
+
+        saved = (hw.socket, hw.ssubprocess, hw._stdin_still_ok, self.helpers.logprefix)
+        hw.socket = _Proxy(saved[0], gethostbyname=gethostbyname, gethostbyaddr=gethostbyaddr,
+                           gethostname=lambda: 'remotebox')
+        hw.ssubprocess = _Proxy(saved[1], Popen=P)
+        hw._stdin_still_ok = still_ok
+        self.files['/etc/hosts'] = spec['etc'].encode('utf-8', 'surrogatepass')
+        self.files[self.cachefile] = None
+        try:
+            hw.hw_main(list(spec['seeds']), True)
+        finally:
+            (hw.socket, hw.ssubprocess, hw._stdin_still_ok, self.helpers.logprefix) = saved
 
 
 # ------------------------------------------------------------------ stage 2: server hostwatch_ready
@@ -525,6 +596,41 @@ def rand_scanner_ops(rng):
     return ops
 
 
+ODD_NAMES = ['db..internal', '.lead', 'l' * 64 + '.example', 'x' * 300, 'trail.', 'a..b.c', 'b\u00fccher.example',
+             'ok-name', 'UPPER.Example', 'under_score.example', 'a' * 63 + '.example', 'host:80', 'a#b']
+
+
+def rand_hwmain(rng, nul=False):
+    """A scanner session: seed hosts, remote hosts file, netstat, resolver tables.  A resolvable host is
+    always placed behind the odd names (as a seed host, in the hosts file and in netstat)."""
+    odd = [rng.choice(ODD_NAMES) for _ in range(rng.choice([1, 2, 3]))]
+    if nul:
+        odd.append('a\0b')
+    good = 'canary%d.example' % rng.randrange(100)
+    gip = '10.9.%d.%d' % (rng.randrange(256), rng.randrange(1, 255))
+    rip = '10.8.%d.%d' % (rng.randrange(256), rng.randrange(1, 255))
+    place = 'etc' if nul else rng.choice(['seed', 'etc', 'both'])   # a NUL can only come from the remote file
+    seeds = (odd if place in ('seed', 'both') else []) + [good]
+    etc = '127.0.0.1 localhost\n'
+    if place in ('etc', 'both'):
+        etc += ''.join('10.7.0.%d %s\n' % (k + 1, n) for k, n in enumerate(odd))
+    etc += '10.6.0.1 files-%d\n' % rng.randrange(10)
+    netstat = 'tcp 0 0 10.0.0.2:22 %s:51234 ESTABLISHED\n' % rip
+    fwd = {good: gip, 'localhost': '127.0.0.1', 'rev-' + good: rip}
+    for n in odd:
+        if rng.random() < 0.3:
+            fwd[n] = '10.5.0.%d' % rng.randrange(1, 255)
+    rev = {rip: 'rev-' + good}
+    expect = [[good, gip], ['rev-' + good, rip]]
+    return dict(seeds=seeds, etc=etc, netstat=netstat, fwd=fwd, rev=rev, passes=4, expect=expect)
+
+
+def rand_history(rng):
+    names = [rand_label(rng, rng.choice([1, 4, 12])) + rng.choice(['', '.example']) for _ in range(rng.choice([1, 2, 3]))]
+    ips = ['10.0.0.1', '10.0.0.2', '10.0.0.3']
+    return [('found', rng.choice(names), rng.choice(ips)) for _ in range(rng.choice([3, 4, 6, 9]))]
+
+
 def chunkings(rng, stream):
     n = len(stream)
     if n == 0:
@@ -604,6 +710,15 @@ def pipeline_case(ctx, case, tmpdir):
                       'raises Fatal("hostwatch process died") and the session ends')
         return log
     emitted = complete_records(stream)
+    for op in ops:
+        if op[0] == 'hwmain':
+            ctx.hist('hwmain')
+            for n, i in op[1].get('expect', []):
+                if (n.encode(), i.encode()) not in emitted:
+                    ctx.violation('C19:scanner:later-record-not-reported', case=case, expected=[n, i],
+                                  observed=[(a.decode('utf-8', 'replace')[:60], b.decode('utf-8', 'replace')) for a, b in emitted][:12],
+                                  note='a resolvable host behind an odd name was never reported')
+                    return log
     for n, i in emitted:
         ctx.hist('emitted:' + ('valid' if NAME_RE.match(n.decode('utf-8', 'replace')) and len(n) <= 253 and
                                QUAD_RE.match(i.decode('utf-8', 'replace')) else 'invalid'))
@@ -685,6 +800,17 @@ def pipeline_case(ctx, case, tmpdir):
         return log
     if len(snaps) != len(delivered):
         ctx.violation('C19:helper:update-count', case=case, expected=len(delivered), observed=len(snaps))
+    last = {}
+    for n, i in emitted:
+        last[n.decode('latin-1')] = i.decode('latin-1')
+    if len(emitted) > len(last):
+        ctx.hist('history:repeated-name')
+    have = dict(snaps[-1][0]) if snaps else {}
+    if have != last:
+        ctx.violation('C19:hosts-file:not-last-announced-value', case=case, expected=last, observed=have,
+                      note="after a history of records the hosts file must hold, for every name, the last address "
+                           "the scanner announced for it")
+        return log
     check_hosts_file(ctx, case, case['hosts_file'], snaps, final, port)
     log.nontrivial = bool(sc.calls)
     return log
@@ -715,6 +841,16 @@ def payload_case(ctx, payload, tmpdir, ports=(0, 12300), hosts_file=HOSTS_FILES[
     if end != 'eof':
         ctx.violation('C19:helper:session-ended-by-host-line', case=case, expected='eof', observed=end)
         return log
+    last = {}       # the property, from the payload alone: valid entries, last value per name
+    for tokn in payload.split():
+        n, sep, i = tokn.partition(b',')
+        if sep and len(n) <= 253 and NAME_RE.match(n.decode('latin-1')) and QUAD_RE.match(i.decode('latin-1')):
+            last[n.decode('latin-1')] = i.decode('latin-1')
+    have = dict(snaps[-1][0]) if snaps else {}
+    if have != last:
+        ctx.violation('C19:hosts-file:not-last-announced-value', case=case, expected=last, observed=have,
+                      note='valid entries of a host list: the last address announced per name must be in force')
+        return log
     check_hosts_file(ctx, case, hosts_file, snaps, final, port)
     return log
 
@@ -733,6 +869,10 @@ def rand_payload(rng):
         else:
             parts.append('%s,%d.%d.%d.%d' % (rand_label(rng, rng.choice([1, 10, 100, 114, 115, 253, 254])),
                                                rng.randrange(256), rng.randrange(256), rng.randrange(256), rng.randrange(256)))
+    if rng.random() < 0.3:      # a history: the same few names announced again and again
+        names = [rand_label(rng, rng.choice([1, 5])) for _ in range(rng.choice([1, 2]))]
+        parts += ['%s,10.0.0.%d' % (rng.choice(names), rng.choice([1, 2, 3])) for _ in range(rng.choice([3, 5, 8]))]
+        rng.shuffle(parts)
     sep = rng.choice(['\n', '\n', ' ', '\r\n', '\t', '\n\n'])
     s = sep.join(parts) + rng.choice(['\n', '', ' \n'])
     return s.encode('utf-8', 'surrogatepass')[:60000]
@@ -779,6 +919,24 @@ def gen_cases(ctx, tmpdir):
     for ops in corpus:
         case = dict(kind='pipeline', ops=ops, encoding='utf-8', chunks=None, ports=[0, 12300], hosts_file=HOSTS_FILES[3])
         logs.append(pipeline_case(ctx, case, tmpdir))
+    # histories of records for one name (the last announced value must be in force) and scanner sessions
+    A, B = '10.0.0.1', '10.0.0.2'
+    for ops in [[('found', 'h', A), ('found', 'h', B), ('found', 'h', A)],
+                [('found', 'h', A), ('found', 'h', A)],
+                [('found', 'h', A), ('found', 'h', B), ('found', 'h', B), ('found', 'h', A)],
+                [('found', 'h', A), ('found', 'g', A), ('found', 'h', B), ('found', 'g', B), ('found', 'h', A), ('found', 'g', A)],
+                [('found', 'h.example', A), ('found', 'h.example', B), ('found', 'h.example', A)]]:
+        case = dict(kind='pipeline', ops=ops, encoding='utf-8', chunks=None, ports=[0, 12300], hosts_file=HOSTS_FILES[0])
+        logs.append(pipeline_case(ctx, case, tmpdir))
+    for _ in range(ctx.scale(25, 400)):
+        case = dict(kind='pipeline', ops=rand_history(rng), encoding='utf-8', chunks=None, ports=[0, 12300],
+                    hosts_file=rng.choice(HOSTS_FILES))
+        logs.append(pipeline_case(ctx, case, tmpdir))
+    nh = ctx.scale(30, 400)
+    for k in range(nh):
+        case = dict(kind='pipeline', ops=[('hwmain', rand_hwmain(rng, nul=(k == nh - 1)))], encoding='utf-8', chunks=None,
+                    ports=[0, 12300], hosts_file=HOSTS_FILES[0])
+        logs.append(pipeline_case(ctx, case, tmpdir))
     # one record cut into three and more reads (consecutive reads without a newline)
     recs = [('found', 'build-agent-07.ci.internal.example.com', '10.20.30.40'), ('found', 'db1.example', '10.20.30.41')]
     whole = b'build-agent-07,10.20.30.40\nbuild-agent-07.ci.internal.example.com,10.20.30.40\ndb1,10.20.30.41\ndb1.example,10.20.30.41\n'
@@ -803,7 +961,8 @@ def gen_cases(ctx, tmpdir):
                     chunks=None, ports=rng.choice([[0, 12300], [12299, 12300], [65535, 0]]),
                     hosts_file=rng.choice(HOSTS_FILES))
         logs.append(pipeline_case(ctx, case, tmpdir))
-    for p in [b'x\n', b'foo,1\n', b',\n', b'a,b,c\n', b'', b'\n', b'ok,1.2.3.4', b'name,1.2.3.4\nname,5.6.7.8\n']:
+    for p in [b'h,10.0.0.1\nh,10.0.0.2\nh,10.0.0.1\n', b'h,10.0.0.1 g,10.0.0.1 h,10.0.0.2 g,10.0.0.2 h,10.0.0.1 h,10.0.0.1\n',
+              b'x\n', b'foo,1\n', b',\n', b'a,b,c\n', b'', b'\n', b'ok,1.2.3.4', b'name,1.2.3.4\nname,5.6.7.8\n']:
         logs.append(payload_case(ctx, p, tmpdir))
     for _ in range(ctx.scale(180, 4000)):
         logs.append(payload_case(ctx, rand_payload(rng), tmpdir, ports=rng.choice([(0, 12300), (1024, 1025)]),
